@@ -417,6 +417,84 @@ def f(p, q):
         return v
     return p.next() + h(1)
 """, must=["h(1)"])
+case("flag loop with break -> any(generator)", """
+def f(x):
+    neg = False
+    for v in x:
+        if v < 0:
+            neg = True
+            break
+    if neg:
+        raise ValueError()
+    return x
+""", must=["any((v < 0 for v in x))"])
+case("flag loop without break -> any([list])", """
+def f(x):
+    hit = False
+    for v in x:
+        if p(v):
+            hit = True
+    return hit
+""", must=["any([p(v) for v in x])"])
+case("flag loop: NOT when the loop does something else as well", """
+def f(x, log):
+    hit = False
+    for v in x:
+        if p(v):
+            hit = True
+            log.append(v)
+    return hit
+""", must=["for v in x"])
+case("iterator-protocol while loop -> for", """
+def f(xs, p):
+    done = object()
+    it = iter(xs)
+    v = next(it, done)
+    while v is not done:
+        v.n = p.next()
+        v = next(it, done)
+    return True
+""", must=["for v in xs:", "v.n = p.next()"], must_not=["while"])
+case("iterator-protocol loop: NOT when the body continues (the advance would be skipped)", """
+def f(xs):
+    done = object()
+    it = iter(xs)
+    v = next(it, done)
+    while v is not done:
+        if v.skip:
+            continue
+        g(v)
+        v = next(it, done)
+""", must=["while v is not done"])
+case("itemgetter call -> subscript", """
+def f(rows, order):
+    pick = itemgetter('sel')
+    rows.sort(key=lambda r: pick(order[r.id]))
+""", must=["order[r.id]['sel']"], must_not=["pick"])
+case("explicit running maximum -> max()", """
+def f(xs):
+    best = 0
+    for x in xs:
+        if x > best:
+            best = x
+    return best
+""", must=["best = max(best, x)"])
+case("explicit max with else", """
+def f(a, b):
+    if b > a:
+        m = b
+    else:
+        m = a
+    return m
+""", must=["max(a, b)"])
+case("explicit max: NOT with >= (a tie would pick the other operand)", """
+def f(a, b):
+    if b >= a:
+        m = b
+    else:
+        m = a
+    return m
+""", must=["if b >= a"])
 
 
 def main():
